@@ -87,7 +87,7 @@ OPS = {
     'det': lambda a: ev.determinant(a) if a.ndim >= 2 else _ill(), 'inv': lambda a: ev.inverse(a) if a.ndim >= 2 else _ill(),
     'guard': lambda a: ev.Guard(a),
     'legendre': lambda a, d: ev.Legendre(a, d),
-    'normdim': lambda a, n: ev.NormDim(ev.appendaxes(C(n), a.shape) if a.ndim else C(n), a),
+    'normdim': lambda a, n: ev.NormDim(ev.appendaxes(C(n), a.shape) if a.ndim else C(n), a) if a.dtype == int and -n <= a._intbounds[0] and a._intbounds[1] < n else _ill(),
     'inrange': lambda a, n: ev.InRange(a, C(n)),
     # binary
     'add': lambda a, b: ev.add(a, b), 'sub': lambda a, b: ev.subtract(a, b), 'mul': lambda a, b: ev.multiply(a, b),
